@@ -30,7 +30,7 @@ RULE = ('bool: 12 documented words x EVERY letter-case spelling (82) x 11 paddin
         'alphabets, non-str types; is_uuid_like: random 128-bit values x 7 decorations x 3 cases, hex length '
         '30..34, one non-hex character per position class; generate_uuid draws. distinct by (function, input, '
         'settings); non-trivial = everything except the plain lower-case unpadded word / in-range int cases')
-REQUIRED_CLAUSES = ['bool-true-word', 'bool-false-word', 'bool-default', 'bool-strict-raises',
+REQUIRED_CLAUSES = ['under-lazy-translation', 'documented-keyword-call', 'bool-true-word', 'bool-false-word', 'bool-default', 'bool-strict-raises',
                     'bool-passthrough', 'boolstr-unpadded', 'boolstr-agrees-with-strict',
                     'int-from-bool', 'intlike-accept', 'intlike-reject', 'vint-returns',
                     'vint-raises', 'vint-noncanonical', 'csl-type', 'csl-raises', 'csl-ok',
@@ -396,9 +396,11 @@ def eval_gen(ctx, case, uu):
         ctx.fail('generated-uuid-respelled-must-be-accepted', case, {'count': respell, 'first': repr(first)})
 
 
-def evaluate(ctx, case):
+def _evaluate_plain(ctx, case):
     from oslo_utils import strutils as su
     from oslo_utils import uuidutils as uu
+    from vlib import callstyle
+    su, uu = callstyle.proxy(su), callstyle.proxy(uu)
     kind = case['kind']
     if kind == 'bool':
         eval_bool(ctx, case, su)
@@ -414,6 +416,10 @@ def evaluate(ctx, case):
         eval_gen(ctx, case, uu)
     else:
         raise ValueError(kind)
+
+
+from vlib import envmodes  # noqa: E402
+evaluate = envmodes.evaluate_with_modes(_evaluate_plain)
 
 
 # ----------------------------------------------------------------------
@@ -497,6 +503,24 @@ def bool_cases(ctx):
     for (subj, want, tname), strict, default in itertools.product(nonstr, (False, True), DEFAULTS):
         yield dict(kind='bool', subj=subj, strict=strict, default=default, want=want, padded=False,
                    cls='non-str/%s' % tname)
+    # 3b. caseless / compatibility look-alikes of the words: equal to a word only under casefold() or NFKC, which is
+    # not "ignoring case" - they are not documented words, for bool_from_string and is_valid_boolstr alike
+    subst = {'s': ['\u017f'], 'f': ['\uff46', '\U0001d41f'], 't': ['\uff54'], 'y': ['\uff59'], 'e': ['\uff45', '\u212f'],
+             'o': ['\uff4f', '\u2134'], 'n': ['\uff4e', '\u207f'], '1': ['\uff11', '\u00b9', '\u0661'], '0': ['\uff10', '\u0660'],
+             'a': ['\uff41'], 'l': ['\uff4c', '\u2113'], 'r': ['\uff52'], 'u': ['\uff55']}
+    looks = set()
+    for w in WORDS:
+        if 'ff' in w:
+            looks.add(w.replace('ff', '\ufb00'))
+            looks.add(w.replace('ff', '\ufb00').upper().replace('FF', '\ufb00'))
+        for i, ch in enumerate(w):
+            for r in subst.get(ch, []):
+                looks.add(w[:i] + r + w[i + 1:])
+                looks.add((w[:i].upper() + r + w[i + 1:].upper()))
+    for text in sorted(looks):
+        for strict, default in itertools.product((False, True), (False, True, None)):
+            yield dict(kind='bool', subj=text, strict=strict, default=default, want='D', padded=False,
+                       cls='caseless-look-alike')
     # 4. seeded arbitrary text, oracle = regex reference model
     rng = ctx.rng('bool-text')
     alphabet = 'tTrRuUeEoOnNyYsSfFaAlL01' * 3 + ' \t\n' * 2 + '2x-._,éıſK\x00'
